@@ -89,6 +89,8 @@ func firstDiff(a, b []byte) int {
 
 func c06Replay(c *Ctx) {
 	client := &http.Client{Transport: &http.Transport{MaxIdleConnsPerHost: 4}}
+	srv := newSwapServer()
+	defer srv.Close()
 	c.Cases("case", c.N(800, 15000), func(i int, r *rand.Rand) {
 		mems := []int64{1, 512, 64 << 10, 0}
 		mem := pick(r, mems)
@@ -219,8 +221,7 @@ func c06Replay(c *Ctx) {
 			c.Violation("constructor", err.Error(), nil)
 			return
 		}
-		srv := newTestServer(buf)
-		defer srv.Close()
+		srv.set(buf)
 		method := pick(r, []string{"POST", "PUT", "POST", "PATCH"})
 		target := srv.URL + pick(r, []string{"/upload", "/a%2Fb/c", "/p?x=1&y=%20z", "/", "/semi;colon?q=a+b"})
 		var rd io.Reader = bytes.NewReader(body)
